@@ -302,7 +302,7 @@ class CatModel:
         for s1 in self._fork_shared(region, s):
             width = self._width(qt, it)
             self.access_ok(region, off, width, s1, it, n, 'read')
-            rd_ev = s1.ev('rd', n, region=region, off=off, width=width)
+            rd_ev = s1.ev('rd', n, region=region, off=off, width=width, itype=it.prog.int_type(qt))
             if region[0] == 'lit' and off.is_const() and 0 <= off.const <= len(region[1]):
                 t = region[1]
                 c = ord(t[off.const]) if off.const < len(t) else 0
@@ -344,6 +344,8 @@ class CatModel:
                 cap_ = self.region_cap(region, s1, it)
                 e['room'] = s1.facts.upper(off.addc(width).sub(cap_), 2)
             self.hook_write(region, off, Lin.c(width), v, s1, it, n)
+            if width == 1 and off.is_const() and is_lin(v) and region[0] in ('BUF', 'BUFHI', 'UBUF'):
+                s1.ghost[('byte', region, off)] = v
             out.append(s1)
         return out
 
@@ -387,6 +389,9 @@ class CatModel:
                 s.ghost.pop(('byte', region, off), None)
             return
         for k in [k for k in s.ghost if isinstance(k, tuple) and k[0] == 'byte' and k[1] == region]:
+            # a write at a known offset only invalidates what it may overlap
+            if off.is_const() and length.is_const() and k[2].is_const() and not (off.const <= k[2].const < off.const + length.const):
+                continue
             del s.ghost[k]
         tk = self.term_key(region)
         t = s.ghost.get(tk)
@@ -647,7 +652,12 @@ class CatModel:
                 sv = None
                 if isinstance(src, tuple) and src[0] == 'ref':
                     sv = s1.mem.get(src[1])
-                s1.ev('copy', n, dst=dst, src=src, len=ln, srcval=sv)
+                txt = self._text(src)
+                if txt is None and isinstance(src, tuple) and src[0] in ('arr', 'aptr'):
+                    txt = s1.ghost.get(('arr', src[1]))
+                if txt is not None and ln.is_const():
+                    txt = txt[:ln.const]
+                s1.ev('copy', n, dst=dst, src=src, len=ln, srcval=sv, text=txt)
             outs.append((s1, dst))
         return outs
 
